@@ -1,4 +1,4 @@
-import FeatModel.Lemmas.C20Main
+import FeatModel.Lemmas.C20Table2
 /-! # C20 — container lifetimes are memory-safe: arrays freed exactly once, no leaks
 
 Theorems about `FeatModel.Pool.step` / `run` / `finalize`, the functions the driver `drv_c20` executes against the
@@ -6,10 +6,12 @@ real FEAT containers.  `Inv s` = every stored counter is positive and, for every
 number of owner references (arrays of non-view containers and of layout objects, with multiplicity; 0 = the
 chunk is not in the pool).
 
-What is *not* proved here and only observed by the correspondence run: heap behaviour of `malloc/free` and of
-kernels (ASan/UBSan stream); that owner pointers are base addresses is used in `release_of_owned_succeeds_partial`.
-All operations of the model preserve the invariant (since /repo commit eef945341 this includes move-assigning onto a
-`SparseLayout` object that still holds arrays, formerly finding F-C20-1). -/
+`Aligned s` = every pointer a container or layout OWNS is null (zero-sized array) or the base address of a chunk.
+Both invariants hold in every reachable state, for all 16 operations (no guard).  `FreshL n l` = every pointer of
+`l` is null or the base address of a chunk id `≥ n`, i.e. of a chunk that did not exist in a pool of length `n`.
+
+What is *not* proved here and only observed by the correspondence run: heap behaviour of `malloc/free` and of kernels
+(ASan/UBSan stream); chunk identity is up to renaming (malloc addresses are not modelled). -/
 open FeatModel.Pool
 
 /-- the empty runtime state satisfies the invariant -/
@@ -41,16 +43,40 @@ theorem C20.valid_while_owner_lives (ops : List Op) (s : State)
   obtain ⟨ch, hch⟩ := owned_present hi (mem_ownIds hs hf hq)
   exact ⟨ch, hch, hi.1 id ch hch⟩
 
-/-- releasing an owned chunk through its base address never aborts (no double free among owners);
-    partial: that every owner pointer *is* a base address is observed by the correspondence run, not proved -/
-theorem C20.release_of_owned_succeeds_partial (s : State) (hi : Inv s) (j : Nat) (h : j ∈ s.ownIds) :
-    ∃ p', release s.pool (.at j 0) = .ok p' := by
-  obtain ⟨c, hc⟩ := owned_present hi h
-  cases hr : release s.pool (.at j 0) with
-  | ok p' => exact ⟨p', rfl⟩
-  | error e =>
-    have := (release_error_iff s.pool j).mp ⟨e, hr⟩
-    rw [hc] at this; cases this
+/-- (I2 with addresses) in every reachable state every owner pointer is null or a base address -/
+theorem C20.aligned_reachable (ops : List Op) (s : State) (h : run State.init ops = .ok s) : Aligned s :=
+  aligned_run aligned_init h
+
+/-- every owner pointer of a reachable state can be released: it is null, or the base address of a chunk that is
+    registered in the pool (no "address not found", no double free) -/
+theorem C20.release_of_owned_succeeds (ops : List Op) (s : State) (h : run State.init ops = .ok s)
+    (a : Nat) (c : Cont) (hs : s.slot a = some c) (q : Ptr) (hq : q ∈ c.owned) :
+    ∃ p', release s.pool q = .ok p' := by
+  have hi := FeatModel.Pool.inv_run FeatModel.Pool.inv_init h
+  have hal := aligned_run aligned_init h
+  rcases slot_aligned hal hs q hq with h0 | ⟨id, h0⟩
+  · subst h0; exact ⟨s.pool, rfl⟩
+  · subst h0
+    have hf : c.foreign = false := by
+      cases hfc : c.foreign with
+      | false => rfl
+      | true => unfold Cont.owned at hq; simp [hfc] at hq
+    have hm : Ptr.at id 0 ∈ c.elems ++ c.inds := by unfold Cont.owned at hq; simpa [hf] using hq
+    obtain ⟨ch, hch⟩ := owned_present hi (mem_ownIds hs hf hm)
+    cases hr : release s.pool (.at id 0) with
+    | ok p' => exact ⟨p', rfl⟩
+    | error e =>
+      have := (release_error_iff s.pool id).mp ⟨e, hr⟩
+      rw [hch] at this; cases this
+
+/-- destroying / clearing any live container and dropping any live layout of a reachable state never aborts: all
+    their arrays (with multiplicity) are released successfully -/
+theorem C20.destroy_clear_drop_never_abort (ops : List Op) (s : State) (h : run State.init ops = .ok s) :
+    (∀ a c, s.slot a = some c → (∃ s', step s (.destroy a) = .ok s') ∧ (∃ s', step s (.clear a) = .ok s')) ∧
+    (∀ l L, s.lay l = some L → ∃ s', step s (.ldrop l) = .ok s') := by
+  have hi := FeatModel.Pool.inv_run FeatModel.Pool.inv_init h
+  have hal := aligned_run aligned_init h
+  exact ⟨fun a c hs => ⟨destroy_ok hi hal hs, clear_ok hi hal hs⟩, fun l L hs => ldrop_ok hi hal hs⟩
 
 /-- a release of an address that is not (any more) in the pool is reported by an abort, never silent -/
 theorem C20.double_free_reported (p : Pool) (id : Nat) :
@@ -73,6 +99,72 @@ theorem C20.freed_exactly_at_last_release (p p' : Pool) (q : Ptr) (id : Nat) (h 
 theorem C20.write_independent (p : Pool) (id off id' off' n : Nat) (vs : List Int) (h : id ≠ id') :
     readArr (writeArr p (.at id off) vs) (.at id' off') n = readArr p (.at id' off') n :=
   write_other_chunk p id off id' off' n vs h
+
+/-- position-wise visibility of a write: after writing `v` at element `K` of chunk `id`, element `k` of the array
+    seen through `(id', off', n')` is `v` iff it is the very same address (same chunk and `off' + k = K`); every
+    other element of every array is unchanged -/
+theorem C20.write_visible_iff_shared (p : Pool) (id K id' off' n' k : Nat) (v : Int) (c : Chunk)
+    (hg : get p id = some c) (hK : K < c.vals.length) :
+    (readArr (writeArr p (.at id K) [v]) (.at id' off') n')[k]? =
+      if id = id' ∧ off' + k = K ∧ k < n' then some v else (readArr p (.at id' off') n')[k]? :=
+  read_after_write p id K id' off' n' k v c hg hK
+
+/-- sharing table, clone (same-type AND cross-type, every mode), at the level of `step`: an index array of the
+    clone is the source's iff the mode is Shallow/Layout/Weak and the index types agree, a data array iff the mode is
+    Shallow and the data types agree; every other array is a fresh chunk; the source slot is untouched -/
+theorem C20.sharing_after_clone (s s' : State) (a b mode : Nat) (fill : Int) (cb : Cont)
+    (h : step s (.clone a b mode fill) = .ok s') (hb : s.slot b = some cb) :
+    ∃ c', s'.slot a = some c' ∧ (a ≠ b → s'.slot b = some cb) ∧ c'.foreign = false ∧
+      (if mode = 3 ∨ mode = 4 then FreshL s.pool.length c'.inds
+       else if c'.it = cb.it then c'.inds = cb.inds else FreshL s.pool.length c'.inds) ∧
+      (if mode = 0 then (if c'.dt = cb.dt then c'.elems = cb.elems else FreshL s.pool.length c'.elems)
+       else FreshL s.pool.length c'.elems) := step_clone_table h hb
+
+/-- sharing table, convert between two distinct containers (same or other type): exactly the arrays whose element
+    type agrees are shared (DT equal / IT different shares the data arrays only, and vice versa) -/
+theorem C20.sharing_after_convert (s s' : State) (a b dt it : Nat) (cb : Cont)
+    (h : step s (.conv a b dt it) = .ok s') (hb : s.slot b = some cb) (hab : a ≠ b) :
+    ∃ c', s'.slot a = some c' ∧ s'.slot b = some cb ∧ c'.foreign = false ∧
+      (if c'.dt = cb.dt then c'.elems = cb.elems else FreshL s.pool.length c'.elems) ∧
+      (if c'.it = cb.it then c'.inds = cb.inds else FreshL s.pool.length c'.inds) := step_conv_table h hb hab
+
+/-- `x.convert(x)` is a no-op -/
+theorem C20.self_convert_noop (s s' : State) (a dt it : Nat) (c : Cont) (h : step s (.conv a a dt it) = .ok s')
+    (hs : s.slot a = some c) : s'.slot a = some c ∧ s'.pool = s.pool := step_conv_self h hs
+
+/-- sharing table, layouts: `L = m.layout()` holds exactly `m`'s index arrays; `M(L)` / `m = L` shares exactly the
+    layout's index arrays and gets a fresh data array -/
+theorem C20.sharing_after_layout (s s' : State) :
+    (∀ l a ca, step s (.lay l a) = .ok s' → s.slot a = some ca →
+      ∃ L, s'.lay l = some L ∧ L.inds = ca.inds ∧ L.sidx = ca.sidx ∧ s'.slot a = some ca) ∧
+    (∀ a l kind dt fill L, step s (.mlay a l kind dt fill) = .ok s' → s.lay l = some L →
+      ∃ c', s'.slot a = some c' ∧ c'.foreign = false ∧ c'.inds = L.inds ∧ FreshL s.pool.length c'.elems ∧
+        s'.lay l = some L) :=
+  ⟨fun _ _ _ h hs => step_lay_table h hs, fun _ _ _ _ _ _ h hl => step_mlay_table h hl⟩
+
+/-- sharing table, adopt-data constructor: the new vector's only array is the source's data array -/
+theorem C20.sharing_after_adopt (s s' : State) (a b : Nat) (cb : Cont)
+    (h : step s (.adopt a b) = .ok s') (hb : s.slot b = some cb) (hn : cb.size ≠ 0) :
+    ∃ c', s'.slot a = some c' ∧ c'.foreign = false ∧ c'.elems = [elemPtr0 cb] ∧ c'.inds = [] ∧
+      (a ≠ b → s'.slot b = some cb) := step_adopt_table h hb hn
+
+/-- a fresh array aliases nothing that was owned before the operation: its chunk id did not exist -/
+theorem C20.fresh_aliases_nothing_owned (s : State) (hi : Inv s) (l : List Ptr) (hf : FreshL s.pool.length l)
+    (j off : Nat) (hj : j ∈ s.ownIds) : Ptr.at j off ∉ l := fresh_not_owned hi hf hj
+
+/-- move assignment between a range view and an owner, both directions (and any other pair): the target releases
+    what it owned, takes the source's arrays AND view flag, the source owns nothing afterwards.  So
+    `owner = move(view)` turns the owner into a view (its arrays are released), and `view = move(owner)` turns the
+    view into the owner without touching the pool -/
+theorem C20.move_between_view_and_owner (s s' : State) (a b : Nat) (ca cb : Cont)
+    (h : step s (.move a b) = .ok s') (hsa : s.slot a = some ca) (hsb : s.slot b = some cb) (hab : a ≠ b) :
+    ∃ c1, s'.slot a = some c1 ∧ s'.slot b = some cb.movedFrom ∧
+      c1.elems = cb.elems ∧ c1.inds = cb.inds ∧ c1.foreign = cb.foreign ∧
+      ca.releaseOwn s.pool = .ok s'.pool ∧ (ca.foreign = true → s'.pool = s.pool) := by
+  obtain ⟨c1, h1, h2, h3, h4, h5, _, h7⟩ := step_move_table h hsa hsb hab
+  refine ⟨c1, h1, h2, h3, h4, h5, h7, fun hf => ?_⟩
+  rw [releaseOwn_view s.pool ca hf] at h7
+  injection h7 with h7; exact h7.symm
 
 /-- the history that leaked two chunks before /repo commit eef945341 (one layout object assigned twice, everything
     destroyed; former finding F-C20-1) now ends with an empty pool and a clean `finalize` -/
